@@ -36,6 +36,11 @@ TRIGGER_DOCS = {
     "front-indented": "---\ntitle: |\n  block\n  ---\n  more\n---\n\n# H\n",
     "front-empty": "---\n---\n\ntext\n",
     "front-late": "text\n---\ntitle: x\n---\n",
+    "front-yaml-alias": "---\ntitle: Release notes\nversion: *current\n---\n\n# Release notes\n",
+    "front-yaml-tag": "---\ntitle: !include title.txt\n---\n\n# Heading\n",
+    "front-yaml-dupkey": "---\ntitle: a\ntitle: b\n---\n\n# Heading\n",
+    "front-yaml-list": "---\n- a\n- b\n---\n\ntext\n",
+    "front-yaml-tab": "---\ntitle:\tx\n---\n\ntext\n",
     "pragma": "# T\n\n<!-- pyml disable-next-line md013-->\nline\n",
     "pragma-and-strike": "<!-- pyml disable-num-lines 2 md009-->\n~~x~~   \nwww.example.com\n",
     "mixed": "---\nt: v\n---\n- [ ] ~~task~~ www.example.com <script>x</script>\n<!-- pyml disable-next-line md033-->\n<title>x</title>\n",
@@ -169,8 +174,12 @@ def run(pid, tier):
         tg = set(o["trig"])
         tr = []
         if any(isinstance(val, str) and val.startswith("EXC:") for _S, val, _h in o["obs"]):
+            plain = next((val for S_, val, _h in o["obs"] if not S_), None)
+            if plain is not None and not (isinstance(plain, str) and plain.startswith("EXC:")):
+                bad = sorted("+".join(SHORT[e] for e in S_) for S_, val, _h in o["obs"] if isinstance(val, str) and val.startswith("EXC:"))
+                ctx.violation("extension-makes-parse-fail :: %s" % (name or psw(text)), {"document": text, "fails_with": bad[:6]})
             ctx.ev.parts["documents_that_do_not_parse"] = ctx.ev.parts.get("documents_that_do_not_parse", 0) + 1
-            continue                # C01's business
+            continue                # does not parse at all: C01's business
         for S, val, _h in o["obs"]:
             eff = sorted(set(S) & tg)
             tr.append({"key": "+".join(SHORT[e] for e in eff) or "none", "val": obs.h(val), "forbidden": False, "src": "+".join(SHORT[e] for e in S) or "none"})
